@@ -10,6 +10,7 @@ import functools
 import itertools
 import os
 import numpy as np
+from fractions import Fraction
 from vlib import zlit, zlist, listlit
 
 PROP = 'C12'
@@ -42,8 +43,10 @@ TRUSTED = ['harness/C12.py (stream/chunking generator; recipe evaluation: one on
 ASSUMPTIONS = ['zero-length chunks are sent to every stage; the C12_*_values / _contiguous theorems assume chunks of >= 1 sample, the C12_*_any theorems (all eleven stages) cover chunkings with zero-length chunks / zero-span Events chunks; all chunks of a stream carry the same fs, channel labels and metadata and are contiguous in s0',
                'the caller does not overwrite a chunk after sending it (blocked, downsample, rms, auto_th keep references / views of their input until enough samples arrived; not demanded by the property text); the target MAY overwrite what it receives',
                'event_rate s0_mode is accepted but ignored by the code (always centre): only contiguity and rate are judged for left / right',
-               'parameters: q >= 1, block size >= 1, discard count >= 0, rms block >= 1 and dividing the s0 of the first chunk '
-               '(rms divides s0 by the block length in floating point), auto_th baseline >= 2 samples (std of 0 or 1 samples is NaN / 0)',
+               'parameters: q >= 1, block size >= 1, discard count >= 0, rms block n >= 1 (the C12_rms_contiguous theorems take n | s0 of the first chunk, where the '
+               'output s0 = s0 / n is an integer; C12_rms_x_* and the off-grid family cover EVERY first s0: there the code emits a float s0 = s0_in / n + windows so far, '
+               'read as the rational s0_in/n + k when within 16 ulp of it; contiguity and the first s0 are judged exactly on the floats), '
+               'auto_th baseline >= 2 samples (std of 0 or 1 samples is NaN / 0)',
                'scipy.signal.lfilter is the sample-sequential recurrence whose final state zf, passed as zi, continues it exactly '
                '(abstract mapAccum in the proofs; exercised bit-exactly here); lfilter is never called on an empty array by the repaired code',
                'transform is claimed for elementwise functions, mc_reference for square matrices; derivative for annotated input only '
@@ -445,7 +448,14 @@ def _encode(case, o, lookups):
     ann = None
     if isinstance(o, PipelineData):
         ann = [_s0(o.s0), _fsd(case['fs'], o.fs), _ch(o.channel, case), _md(o.metadata, case)]
-    return {'rows': rows, 'two': bool(two), 'ann': ann, 'n': int(a2.shape[-1])}
+    enc = {'rows': rows, 'two': bool(two), 'ann': ann, 'n': int(a2.shape[-1])}
+    if ann is not None and case.get('offgrid'):
+        try:
+            f = Fraction(float(o.s0))               # the float s0 as the exact rational it is
+            enc['s0f'] = [f.numerator, f.denominator]
+        except (TypeError, ValueError, OverflowError):
+            enc['s0f'] = None
+    return enc
 
 
 def _drive(case, chunks, cb=None, prefix=None):
@@ -774,6 +784,14 @@ def term(case, res):
             t = f'check_downsample {rep} {zlit(p["q"])} {h} {s0} {sizes} {got}'
         elif st == 'decimate':
             t = f'check_decimate_e {rep} {zlit(p["q"])} {h} {s0} {sizes} {got}'
+        elif st == 'rms' and case.get('offgrid'):
+            # output s0 in INPUT samples: n times the exact value of the float s0 (check_rms_x)
+            n = _rms_n(case)
+            scaled = copy.deepcopy(res)
+            for o in scaled['outs']:
+                f = _s0_times_n(o.get('s0f'), n)
+                o['ann'][0] = int(f) if f is not None and f.denominator == 1 else -99999
+            t = f'check_rms_x {rep} {zlit(n)} {h} {s0} {sizes} {_got(scaled, r)}'
         elif st == 'rms':
             t = f'check_rms {rep} {zlit(_rms_n(case))} {h} {s0} {sizes} {got}'
         elif st == 'derivative':
@@ -849,6 +867,8 @@ def oracle(case, res):
             return f'{st}{p}: chunking {case["sizes"][:12]} and the single chunk [{N}] give different concatenated output'
     if 'dtype' in res:
         return f'{st}{p}: emitted dtype {res["dtype"]} (input dtype {_v(case, "dtype", "f8")})'
+    if case.get('offgrid'):
+        return _oracle_rms_offgrid(case, res)
     if st == 'blocked' and any(o['n'] != p['bs'] for o in outs):
         return f'blocked{p}: emitted block lengths {[o["n"] for o in outs][:8]}'
     if st == 'auto_th' and not (res['th_ok'] and res['th_meta_ok']):
@@ -877,6 +897,48 @@ def oracle(case, res):
         return f'{st}{p}: pipeline.concat of the consecutive outputs fails: {res.get("concat")}'
     if outs and one and outs[0]['ann'][0] != one[0]['ann'][0]:
         return f'{st}{p}: first output s0 {outs[0]["ann"][0]} depends on the chunking (single chunk: {one[0]["ann"][0]})'
+    return None
+
+
+def _s0_times_n(s0f, n):
+    """n times the emitted s0, as the model's integer (s0 in INPUT samples).  The code computes s0_in / n once and then
+    adds window counts, all in floating point: a float within 16 ulp of j / n (j an integer) stands for j / n (as
+    harness/C11.py _rate does for rates); any other float for itself"""
+    if not s0f:
+        return None
+    f = Fraction(*s0f)
+    x = float(f)
+    j = round(f * n)
+    if abs(float(Fraction(j, n)) - x) <= 16 * float(np.spacing(abs(x))):
+        return Fraction(j)
+    return f * n
+
+
+def _oracle_rms_offgrid(case, res):
+    """rms on an annotated stream starting off the window grid: contiguity in the code's own terms, as exact Fractions"""
+    p, n = case['p'], _rms_n(case)
+    outs, one = res['outs'], res['one']
+    tag = f'rms{p} (s0={case["s0"]} = {case["s0"] // n}*n + {case["s0"] % n}, chunking {case["sizes"][:12]})'
+    fsd, ch = _out_fsd(case), _ch(_eff_channel(case), case)
+    for k, o in enumerate(outs + one):
+        if o['ann'] is None or not o.get('s0f'):
+            return f'{tag}: an output block lost its annotations / has no numeric s0'
+        if o['ann'][1] != fsd:
+            return f'{tag}: output fs != input fs / {fsd}'
+        if o['ann'][2] != ch or o['ann'][3] != 7:
+            return f'{tag}: output block {k} does not carry the input channel labels / metadata'
+    f = [Fraction(*o['s0f']) for o in outs]
+    if outs and f[0] != Fraction(case['s0'] / n):          # the correctly rounded quotient (exact for the dyadic family)
+        return f'{tag}: first output s0 is {float(f[0])!r}, not s0_in / n = {case["s0"]}/{n}'
+    exact = _dyadic(case['s0'], n)       # otherwise: EXACT in the code's own terms, the float addition pipeline.concat performs
+    for k in range(len(outs) - 1):
+        if (f[k + 1] != f[k] + outs[k]['n']) if exact else (float(f[k + 1]) != float(f[k]) + outs[k]['n']):
+            return (f'{tag}: output block {k} starts at s0={float(f[k])!r} with {outs[k]["n"]} windows but block {k + 1} '
+                    f'starts at s0={float(f[k + 1])!r}')
+    if outs and res.get('concat') != 'ok':
+        return f'{tag}: pipeline.concat of the consecutive outputs fails: {res.get("concat")}'
+    if outs and one and Fraction(*one[0]['s0f']) != f[0]:
+        return f'{tag}: first output s0 depends on the chunking'
     return None
 
 
@@ -949,6 +1011,8 @@ def nontrivial(case, res):
         return False
     if st == 'edges_rate' or 'blocks' in case:
         return bool(_er_ahead(case, res))           # at least one event ahead of the span of its block
+    if case.get('offgrid'):
+        return True                                 # >= 2 chunks of a stream that starts off the window grid
     per = _period(case)
     if st == 'event_rate':
         per = 0
@@ -1105,6 +1169,36 @@ def _er_case(rng, sizes, bsz, stp, lo=None):
     events = [lo + i for i in range(N) if rng.random() < dens]
     return {'stage': 'event_rate', 'p': {'bsz': bsz, 'stp': stp}, 'lo': lo, 'fs': 1000.0,
             'sizes': list(sizes), 'events': events}
+
+
+def _dyadic(s0, n):
+    """s0 / n is a dyadic rational (exact as a float, and so is every s0 / n + k)"""
+    d = Fraction(s0, n).denominator
+    return d & (d - 1) == 0
+
+
+def _rms_offgrid_cases(rng, reps):
+    """annotated rms input whose first sample index is k*n + r, r != 0: r = n/2 (where a rounded s0 would tie), 1, n-1,
+    random; n even and odd (for r/n not dyadic the float s0 / n is rounded: re-dividing for every emission, as rms did
+    before the repair fix-C12-rms, loses exact contiguity)"""
+    for i in range(reps):
+        n = rng.choice([2, 4, 8, 16, 6, 10, 12, 20, 24, 3, 5, 7, 9, rng.randint(2, 40)])
+        rs = [r for r in sorted({n // 2, 1, n - 1, n // 4, 3 * n // 4, rng.randint(1, n - 1)})
+              if 0 < r < n]
+        if not rs:
+            continue
+        r = rs[i % len(rs)]
+        s0 = rng.choice([0, 0, 1, -1, -2, 5, -rng.randint(1, 50), rng.randint(1, 2000)]) * n + r
+        W = rng.randint(2, 9)                                            # complete windows in the stream
+        N = W * n + rng.randint(0, n - 1)
+        for sizes in ([n] * W + ([N - W * n] if N > W * n else []),     # ONE window per emission
+                      _cut_at([3 * n * j for j in range(1, W)], 0, N),  # three windows (an odd number) per emission
+                      _cut_at([n + 1, 2 * n + 1 + rng.randint(0, n), N - 1], 0, N),
+                      _rand_sizes(rng, N, max(2, n)), [N]):
+            if sizes and all(m > 0 for m in sizes):
+                c = _case('rms', {'n': n}, rng.random() < 0.4, True, sizes, rng, s0=s0)
+                c['offgrid'] = True
+                yield c
 
 
 def _cut_at(points, lo, N):
@@ -1328,6 +1422,8 @@ def cases(tier, rng):
     # causal Events streams: events at or after the end of the block that carries them (as pipeline.edges emits them)
     for _ in range(70 if quick else 1500):
         yield from _er_ahead_group(rng)
+    # rms on annotated streams that start off the window grid (s0 = k*n + r)
+    yield from _rms_offgrid_cases(rng, 40 if quick else 800)
     # composition: boolean stream -> real edges -> real event_rate
     for k in range(24 if quick else 600):
         yield from _edges_rate_group(rng, k)
